@@ -10,6 +10,7 @@ type GenOpts struct {
 	Bottoms      []string // allowed bottom kinds (default ideal, banked)
 	MaxOps       int      // per requester (default 60)
 	SingleDriver bool
+	SingleLevel  bool // exactly one level
 	NoROB        bool
 	MinLatency   int  // minimum pipeline latency drawn for write-back caches
 	WTMinLatency int  // minimum pipeline latency drawn for write-through caches (steering around a listed finding)
@@ -42,6 +43,9 @@ func GenAssembly(rt *rapid.T, o GenOpts) AssemblySpec {
 	// Levels: block sizes must not shrink toward the bottom.
 	nLevels := rapid.IntRange(0, 3).Draw(rt, "nLevels")
 	if o.NeedWB && nLevels == 0 {
+		nLevels = 1
+	}
+	if o.SingleLevel {
 		nLevels = 1
 	}
 	log2 := uint64(rapid.IntRange(4, 6).Draw(rt, "log2Top"))
